@@ -81,12 +81,17 @@ func (g *mgen) newStruct() (string, []mvar, int) {
 			kind = 1 // a signed member: its callers pass negative numbers
 		}
 		f := mvar{name: fmt.Sprintf("f%d", i), typ: mtype{kind: kind, bits: w}}
-		if n := 2 + g.ch(3); g.ch(4) == 0 && total-w+8*n <= 64 {
+		if n := 2 + g.ch(3); i > 0 && g.ch(3) == 0 && total-w+8*n <= 64 {
 			// a byte-array member (a key, a nonce): callers that pass Go values may pass fewer elements
 			total += 8*n - w
 			f.typ = mtype{kind: 3, bits: 8, count: n}
+			if g.ch(2) == 0 { // after a signed member
+				fields[i-1].typ.kind = 1
+			}
 		}
 		fields = append(fields, f)
+	}
+	for _, f := range fields {
 		fmt.Fprintf(&sb, "\t%s %s\n", f.name, f.typ)
 	}
 	sb.WriteString("}\n")
@@ -304,7 +309,50 @@ func (g *mgen) boolExpr(depth int) string {
 }
 
 func (g *mgen) stmt(depth int) {
-	switch g.ch(15) {
+	switch g.ch(16) {
+	case 15: // a copy of an array gets a constant element (directly or through a pointer); the
+		// original is read at a computed index and dropped; a computed value as wide as the whole
+		// array follows; then the copy is read
+		arrs := g.arrVars()
+		ivs := g.intVars()
+		if len(arrs) == 0 || len(ivs) == 0 {
+			return
+		}
+		a := arrs[g.ch(len(arrs))]
+		if a.typ.bits*a.typ.count > 256 {
+			return
+		}
+		el := mtype{kind: 0, bits: a.typ.bits}
+		cp := g.fresh("cp")
+		g.emit("%s := %s", cp, a.name)
+		k := g.ch(a.typ.count)
+		if g.ch(3) == 0 {
+			fn := fmt.Sprintf("set%d", len(g.decls))
+			g.decls = append(g.decls, fmt.Sprintf("func %s(ptr *%s) {\n\t*ptr = %s(%s)\n}\n", fn, el, el, g.constant(el)))
+			g.emit("%s(&%s[%d])", fn, cp, k)
+		} else {
+			g.emit("%s[%d] = %s(%s)", cp, k, el, g.constant(el))
+		}
+		if iv := g.intVars(); len(iv) > 0 && (a.typ.count == 2 || a.typ.count == 4) && g.ch(3) != 0 {
+			d := g.fresh("dyn")
+			g.emit("%s := %s[uint32(%s) & uint32(%d)]", d, a.name, iv[g.ch(len(iv))].name, a.typ.count-1)
+			g.vars = append(g.vars, mvar{name: d, typ: el})
+		}
+		wide := mtype{kind: 0, bits: a.typ.bits * a.typ.count}
+		w := g.fresh("w")
+		g.emit("%s := (%s(%s) + %s)", w, wide, ivs[g.ch(len(ivs))].name, g.expr(wide, 0)) // (not constant + constant: folding wide constants is not this property's business)
+		if g.ch(2) == 0 && wide.bits <= 64 {
+			// (a multiplication of a wider value by a constant crashes the compiler in both modes -
+			// "Output already assigned" - which is not what this property is about)
+			g.emit("%s = %s * %s(%s)", w, w, wide, g.constant(wide))
+		}
+		g.vars = append(g.vars, mvar{name: w, typ: wide})
+		g.vars = append(g.vars, mvar{name: cp, typ: a.typ})
+		for r := 0; r < 1+g.ch(2); r++ {
+			e := g.fresh("e")
+			g.emit("%s := %s[%d]", e, cp, g.ch(a.typ.count))
+			g.vars = append(g.vars, mvar{name: e, typ: el})
+		}
 	case 14: // the same 32-bit constant pattern as a signed and as an unsigned wide value
 		k := g.ch(3)
 		sw := []int{64, 33, 64}[g.ch(3)]
